@@ -108,11 +108,16 @@ class DuplicatingGraph:
 
         Upon completion, the existing computational graph involves only placeholders.
         Note that the placeholders and original tensors point to the same array-data."""
-        if not tensor._view_children:
+        # (a listed tensor whose link to its base was dropped -- a view that outlived the
+        # graph of its base and was then updated in place -- is a memory owner, not a view)
+        children = [child for child in tensor._view_children if child._base is not None]
+
+        if not children:
             self.leafs.add(id(tensor))
+            self[tensor].placeholder._view_children = WeakRefIterable()
             return
 
-        for child in tensor._view_children:
+        for child in children:
             self._record_mapping(
                 original=child,
                 placeholder=make_placeholder_tensor(
@@ -124,7 +129,7 @@ class DuplicatingGraph:
             self._duplicate_graph(child)
 
         self[tensor].placeholder._view_children = WeakRefIterable(
-            [self[t].placeholder for t in tensor._view_children]
+            [self[t].placeholder for t in children]
         )
 
     def __init__(self, base: "Tensor"):
